@@ -2606,7 +2606,7 @@ def concatenate(arrays: Sequence[Array], axis: int = 0) -> Array:
             raise ValueError("arrays must have the same shape except along"
                     f" dimension #{axis}.")
 
-    if not (0 <= axis <= arrays[0].ndim):
+    if not (0 <= axis < arrays[0].ndim):
         raise ValueError("invalid axis")
 
     return Concatenate(tuple(arrays), axis,
